@@ -140,7 +140,10 @@ func spin(d time.Duration) {
 	for t := time.Now(); time.Since(t) < d; {
 	}
 }
-func (q *slowQ) Push(j quartz.ScheduledJob) error { spin(40 * time.Microsecond); return q.JobQueue.Push(j) }
+func (q *slowQ) Push(j quartz.ScheduledJob) error {
+	spin(40 * time.Microsecond)
+	return q.JobQueue.Push(j)
+}
 func (q *slowQ) Remove(k *quartz.JobKey) (quartz.ScheduledJob, error) {
 	j, err := q.JobQueue.Remove(k)
 	spin(40 * time.Microsecond)
